@@ -33,6 +33,12 @@ SRCS['tree-leaves-expand'] = ('<dtml-tree root branches_expr="kids()" leaves=lfd
 _CLIENT_SRC = '<dtml-var nid>|<dtml-in outer><dtml-var f1><dtml-var tpId></dtml-in>|<dtml-with o><dtml-var f1></dtml-with>|<dtml-var probe>'
 for _k in ('0', '1', '1t', '2', '3'):
     SRCS['clients-' + _k] = _CLIENT_SRC
+# a template that calls itself until the recursion limit of the namespace refuses the call (SystemError): the refused call,
+# like every other, leaves the namespace as it found it -- with keyword arguments per level, with defaults of the template
+SRCS['recursion-kw'] = ('<dtml-try><dtml-var "rec(nil, _, depth=depth+1)"><dtml-except SystemError>caught@<dtml-var depth></dtml-try>'
+                        '|<dtml-var probe>')
+SRCS['recursion-defaults'] = ('<dtml-try><dtml-var rec><dtml-except SystemError>caught:<dtml-var dflt></dtml-try>|<dtml-var probe>')
+SRCS['recursion-python'] = '<dtml-var "rec(nil, _, depth=depth+1)">|<dtml-var probe>'
 MODES = [{}, {'expand_all': 1}, {'collapse_all': 1}, 'cookie', 'click', 'expleaf']
 
 
@@ -132,8 +138,10 @@ def run(src_name, mode, at, kind):
     install()
     t = _T.get(src_name)
     if t is None:
-        t = _T[src_name] = HTML(SRCS[src_name])
+        t = _T[src_name] = HTML(SRCS[src_name], dflt='D') if src_name == 'recursion-defaults' else HTML(SRCS[src_name])
         t.cook()
+    if src_name.startswith('recursion'):
+        sys.setrecursionlimit(max(sys.getrecursionlimit(), 30000))
     root = tree()
     resp = Resp()
 
@@ -142,7 +150,7 @@ def run(src_name, mode, at, kind):
             tick()
             return 'F'
     base = {'URL': 'http://h/doc', 'RESPONSE': resp, 'root': root, 'probe': 'outer-probe', 'f1': F(), 'outer': [1, 2],
-            'o': Node('o'), 'hd': 'H', 'ft': 'F', 'lfdoc': HTML('L:<dtml-var tpId><dtml-var f1>;')}
+            'o': Node('o'), 'hd': 'H', 'ft': 'F', 'lfdoc': HTML('L:<dtml-var tpId><dtml-var f1>;'), 'rec': t, 'depth': 0, 'nil': None}
     kw = {}
     if mode in ('cookie', 'click'):
         # a first, fault-free request to obtain a cookie (and a link)
@@ -194,7 +202,7 @@ def run(src_name, mode, at, kind):
 def stage(V, tier):
     recs = []
     for name in SRCS:
-        for mode in MODES:
+        for mode in (MODES if not name.startswith('recursion') else MODES[:1]):
             r0 = run(name, mode, None, None)
             recs.append(r0)
             kmax = r0['ninv'] if tier == 'thorough' else min(r0['ninv'], 14)
